@@ -86,6 +86,7 @@ def parseOp (ws : List String) : Option Op :=
   | ["vote", a, id] => do some (.vote (← nat? a) (← nat? id))
   | ["block", dt] => do some (.block (← nat? dt))
   | ["setperiods", dp, vp] => do some (.setPeriods (← nat? dp) (← nat? vp))
+  | ["setunbond", n] => do some (.setUnbond (← nat? n))
   | ["migrate", f, t, signer, order] =>
     do let f ← nat? f; let t ← nat? t; let sg ← nat? signer
        if order == "ft" || order == "tf" then some (.migrate f t (sigOkOf f t sg order)) else none
@@ -97,7 +98,7 @@ def stepLine (s : State) (line : String) : State × String :=
     match nat? ub, nat? dp, nat? vp, nat? md, nat? me, nat? nu, nat? np with
     | some ub, some dp, some vp, some md, some me, some nu, some np =>
       ({ unbondTime := ub, depPeriod := dp, votePeriod := vp, minDeposit := md, maxEntries := me,
-         nextUnbId := nu, nextProp := np }, "ok")
+         nextUnbId := nu, blockFirstId := nu, nextProp := np }, "ok")
     | _, _, _, _, _, _, _ => (s, "bad-op")
   | "reset" :: _ => ({}, "ok")
   | ["val", v, tok, per] =>
@@ -110,6 +111,21 @@ def stepLine (s : State) (line : String) : State × String :=
     | some a, some k, some st, some en, some orig, some per =>
       ({ s with vest := put s.vest a { kind := k, start := st, stop := en, orig := orig, periods := per } }, "ok")
     | _, _, _, _, _, _ => (s, "bad-op")
+  | ["migratew", f, cls, b, hx, signer, order] =>
+    -- a migration whose target is spelled: class, the bytes spelled, HexToAddress of the string; the signer signed
+    -- (prefix, from, bytes) (or the swapped order)
+    match nat? f, nat? cls, nat? b, nat? hx, nat? signer with
+    | some f, some cls, some b, some hx, some signer =>
+      if order != "ft" && order != "tf" then (s, "bad-op") else
+      let fields := if order == "ft" then ["prefix", "from", "to"] else ["prefix", "to", "from"]
+      let sig : Nat × List Nat := (signer, signedBytes fields pfxBytes (fun a => [a]) f b)
+      let res := migrateMsg (H := List Nat) (S := Nat × List Nat) id
+        (fun h sg => if sg.1 != 0 && sg.2 == h then some sg.1 else none) pfxBytes (fun a => [a]) cfg s f
+        { cls := cls, bytes := b, hex := hx } sig
+      match res with
+      | .ok s' => (s', "ok " ++ showState s')
+      | .error e => (s, errName e ++ " " ++ showState s)
+    | _, _, _, _, _ => (s, "bad-op")
   | ["key", a] =>
     match nat? a with
     | some a => ({ s with hasKey := ins s.hasKey a }, "ok")
